@@ -132,6 +132,16 @@ class Profile:
             return False
 
 
+class _NoExp:
+    cells = {}
+    free = frozenset()
+    judged = True
+    notes = {}
+
+
+_NOEXP = _NoExp()
+
+
 def bump(P, k, n=1):
     P[k] = P.get(k, 0) + n
 
@@ -167,13 +177,25 @@ class Edits(Profile):
     def tune(self, cfg, rng):
         cfg["universe"] = rng.choice([2, 3, 3, 4, 4, 5, 6, 8, 12, 20, 40])
         cfg["nsess"] = rng.choice([1, 1, 1, 2, 3])
+        cfg["p_oob_index"] = rng.choice([0.0, 0.0, 0.15, 0.4])
 
     def judge(self, c):
         if not c.exp.judged:
             return None
         k = c.op["k"]
+        if k == "add_child" and c.exp.notes.get("oob") and not c.out.ok:
+            # An index outside 0..len: the ordered-list model is list.insert, which accepts any
+            # integer; an implementation that refuses such an index instead is a failing edit
+            # and must leave the tree unchanged.  Both are accepted.
+            v = check_exp("C09", k, (CH,), _NOEXP, c.pre, c.post)
+            if v:
+                v.clause, v.sig = "E5", "add_child:out-of-range-index:raised-and-tree-changed"
+                return v
+            return self._links(c)
         v = check_exp("C09", k, (CH,), c.exp, c.pre, c.post)
         if v:
+            if k == "add_child" and c.exp.notes.get("oob"):
+                v.sig = "add_child:out-of-range-index:" + v.sig.split(":", 1)[1]
             if k.startswith("x_") and v.clause == "F":
                 v.clause = "E5"
                 v.sig = "%s:tree-changed" % k
@@ -267,7 +289,9 @@ class Edits(Profile):
             bump(P, "fault:illegal_edit")
         elif k == "add_child" and c.R["i"] is not None:
             bump(P, "add_child_indexed")
-            if c.R["i"] < len(c.pre.cells[c.R["p"]][CH]):
+            if c.exp.notes.get("oob"):
+                bump(P, "add_child_index_out_of_range")
+            elif c.R["i"] < len(c.pre.cells[c.R["p"]][CH]):
                 bump(P, "add_child_insert_before_existing")
 
 
@@ -390,24 +414,32 @@ class Registry(Profile):
     prop = "C14"
     name = "registry"
     design_ref = "DESIGN.md section 5, C14"
-    fault_kinds = ("clk",)
+    fault_kinds = ("clk", "raw_append", "forget")
     keep = ("new",)
     own_kinds = frozenset(["new", "copy", "delete", "replace_child", "import_xml", "restart", "prune", "expand",
-                           "remove_child", "remove_children"])
+                           "remove_child", "remove_children", "forget"])
     expected_probes = ("delete_parent_after_child_unregistered", "delete_children", "delete_single", "delete_subtree_gt2",
                        "replace_delete_old", "replace_keep_old", "copy", "two_ids_same_clock_reading",
                        "clock_went_backwards_between_ids", "registry_prune_removed", "registry_expand_expanded",
-                       "registry_import", "registry_restart", "fault:partial_unregister", "fault:restart")
+                       "registry_import", "registry_restart", "fault:partial_unregister", "fault:restart",
+                       "fault:client_drops_references", "forget_tree_gt1", "fault:child_list_edited_through_property")
 
     def weights(self, cfg, rng):
         return {"new": 12, "copy": 6, "add_child": 10, "remove_child": 4, "remove_children": 1,
                 "replace_child": 6, "delete": 8, "clk": 8, "restart": 1.5, "import_xml": 2,
                 "query": 2, "shift": 1, "set_content": 0.5, "add_ns": 0.5,
-                "eml_seed": 1.5, "plant": 2, "prune": 2, "add_ref": 2, "expand": 2}
+                "eml_seed": 1.5, "prune": 2, "expand": 2, "raw_append": 0.8, "forget": 0.8}
 
     def tune(self, cfg, rng):
         cfg["nsess"] = rng.choice([2, 2, 3, 4])
         cfg["partial"] = cfg["faults"]
+        if rng.random() < 0.03:
+            # a few runs with a very large registry (thousands of entries)
+            cfg["big_world"] = True
+            cfg["universe"] = 3000
+            cfg["eml_universe"] = 3000
+            cfg["weights"]["import_xml"] = cfg["weights"].get("import_xml", 1) * 6 + 6
+            cfg["steps"] = min(cfg["steps"], 60)
         if not cfg["faults"]:
             cfg["p_delete_children"] = 1.0
 
@@ -415,6 +447,15 @@ class Registry(Profile):
         k = c.op["k"]
         if not c.exp.judged:
             return None
+        if k == "forget":
+            if c.out.ok and c.out.value["lost"]:
+                h = c.out.value["lost"][0]
+                return Violation("C14", "E1", "forget:not-retrievable-although-never-deleted",
+                                 "after the client dropped its own references (and a garbage collection), node h%d "
+                                 "is no longer retrievable by its id although nothing deleted it" % h,
+                                 {"lost": c.out.value["lost"][:10]})
+            if not c.out.ok:
+                return Violation("C14", "harness", "forget:harness", "forget raised %s" % short(c.out.exc))
         if k in ("prune", "expand"):
             v = self._discarders(c, k)
             if v:
@@ -518,6 +559,12 @@ class Registry(Profile):
         elif k == "restart" and c.out.ok:
             bump(P, "registry_restart")
             bump(P, "fault:restart")
+        elif k == "forget" and c.out.ok:
+            bump(P, "fault:client_drops_references")
+            if c.out.value["size"] > 1:
+                bump(P, "forget_tree_gt1")
+        elif k == "raw_append" and c.out.ok:
+            bump(P, "fault:child_list_edited_through_property")
         if k == "delete" and c.exp.judged and c.exp.notes.get("partial"):
             bump(P, "fault:partial_unregister")
         cl = c.W.clock
@@ -525,7 +572,7 @@ class Registry(Profile):
         P["clock_went_backwards_between_ids"] = cl.backwards
 
 
-def independence(c, prop, pairs, clause, names=("source", "copy")):
+def independence(c, prop, pairs, clause, names=("source", "copy"), aspects=None):
     """Edits whose operands lie on one side of a (source, copy) pair must not be
     visible on the other side.  Only leakage the caller did not ask for is
     reported: a pair is retired as soon as an operation has operands on both
@@ -537,6 +584,7 @@ def independence(c, prop, pairs, clause, names=("source", "copy")):
     k = c.op["k"]
     if not pairs or not KINDS[k].mutating:
         return None
+    aspects = aspects or ALL
     touched = set(x for x in c.R.values() if isinstance(x, int))
     if k == "nsmap_item":
         # Writing through the nsmap property reaches every node that shares the dictionary.
@@ -553,7 +601,7 @@ def independence(c, prop, pairs, clause, names=("source", "copy")):
                 scope, who = oset - cset, names[0]
             else:
                 continue
-            v = check_exp(prop, k, ALL, c.exp, c.pre, c.post, scope=scope, exclude_footprint=True)
+            v = check_exp(prop, k, aspects, c.exp, c.pre, c.post, scope=scope, exclude_footprint=True)
             if v:
                 v.clause = clause
                 v.sig = "%s:leaks-into-%s:%s" % (k, who, v.detail.get("aspect"))
@@ -584,7 +632,7 @@ def independence(c, prop, pairs, clause, names=("source", "copy")):
     for (oset, cset, born, dirty) in pairs:
         for mine, other, who in ((oset, cset, names[1]), (cset, oset, names[0])):
             if touched & mine and not (touched & other):
-                v = check_exp(prop, k, ALL, c.exp, c.pre, c.post, scope=other, exclude_footprint=True)
+                v = check_exp(prop, k, aspects, c.exp, c.pre, c.post, scope=other, exclude_footprint=True)
                 if v:
                     v.clause = clause
                     v.sig = "%s:leaks-into-%s:%s" % (k, who, v.detail.get("aspect"))
